@@ -572,4 +572,12 @@ def challengeSpec (scheme : String) (realm : Bytes) : Bytes :=
 /-- bytes that cannot appear raw in a quoted-string -/
 def realmClean (realm : Bytes) : Bool := realm.all fun c => c != 34 && c != 92
 
+/-! ## hot reload of a rule table -/
+
+/-- `RuleTable.Update(conf)`: version and product map are REPLACED by the new conf (nothing of the old one survives) -/
+def tableUpdate {C : Type} (_old : Option C) (conf : C) : Option C := some conf
+
+/-- the table after a history of reloads, starting from a fresh module -/
+def tableAfter {C : Type} (history : List C) : Option C := history.foldl tableUpdate none
+
 end BfeVerif.C51
